@@ -42,7 +42,9 @@ def main(tier):
     jobs = [('.', 'VerifRunFrame', {'timer': t, 'display': d, 'lcd': l, 'cancelled': c}) for t, d, l, c in ((0, 1, 1, 0), (1, 0, 1, 1), (2, 1, 0, 1))]
     for j in jobs:
         j[2]['stop'] = 0
-    jobs += [('.', 'VerifRunFrame', {'timer': 1, 'display': 0, 'lcd': 1, 'cancelled': 0, 'stop': 1})]
+        j[2]['multi'] = 0
+    jobs += [('.', 'VerifRunFrame', {'timer': 1, 'display': 0, 'lcd': 1, 'cancelled': 0, 'stop': 1, 'multi': 0}),
+             ('.', 'VerifRunFrame', {'timer': 1, 'display': 0, 'lcd': 1, 'cancelled': 0, 'stop': 0, 'multi': 1})]
     jobs += [('.', 'VerifRunFrameOrder', {})]
     ck.run(jobs, timeout_ms=300000, setup=stub_render, max_unwind=64, interp_budget_s=1500)
     rjobs = [('.', 'VerifRun', {'display': d, 'speakers': s}) for d in (0, 1) for s in (0, 1)]
